@@ -64,7 +64,7 @@ Step ==
   \/ Ev("RReadEOF") /\ RReadEOF
   \/ Ev("RDeliver") /\ RDeliver
   \/ Ev("RClosed1") /\ RClosed1
-  \/ Ev("RFanout") /\ RFanout
+  \/ Ev("RFanout") /\ \E lost \in BOOLEAN : RFanout(lost)
   \/ Ev("PeerReply") /\ PeerReply(Arg(1), Arg(2))
   \/ Ev("PeerFrame") /\ PeerFrame(Arg(1))
   \/ Ev("PeerCut") /\ PeerCut(Arg(1))
